@@ -7,6 +7,13 @@ from harness import pyobjs
 
 PROP = 'C01'
 LEAN_MODULES = ['Glom.Props.C01']
+FACT_FILES = ['TFacts', 'ExcFacts', 'RegFacts']
+READY = True
+MANIFEST = dict(
+    text="Lean 4 theorems: `_t_eval`'s flat-tuple loop refines the left-to-right walk for every heap, target and path of any length (same object on success, PathAccessError(k, e) at the first failing segment, nothing touched after it), `Path.from_text` = `Path(*segs)`, PathAccessError's bases; per-run facts obligation by `decide` on the tables regenerated from /repo; model tied to the code by differential execution through the compiled Lean driver.",
+    note="trusted: Lean kernel + {propext, Classical.choice, Quot.sound}; extractor; harness/driver; CPython access primitives (getattr/subscription/int()) as modelled in Glom/Py/Access.lean and validated by the correspondence; default registry only (C13 covers registration); segments within int() subset [+-]?[0-9]+.",
+    technique='Lean 4 refinement proof (flat ops loop = structural walk) + facts obligation by decide + differential correspondence',
+    ref='DESIGN.md §3 C01')
 RULE = ('type-directed: a nested target (dict/OrderedDict/list/tuple/attribute objects/scalars, with '
         'shared sub-objects and cycles through mutable containers, plain or access-logging classes) is '
         'generated as a heap graph, a valid path of length 0-6 (quick) / 0-10 (thorough) is derived by '
